@@ -2,8 +2,9 @@
 
     Mirror of Shard.WritePoints / Shard.validateSeriesAndFields (tsdb/shard.go) on top of the
     field-schema mirror of Model/C10.v (ValidateAndCreateFields, CreateFieldIfNotExists), and
-    of the hand-off to the storage engine: Engine.WritePoints turns EVERY field of every point
-    it is given (also a field named time) into a value under the key series#!~#field;
+    of the hand-off to the storage engine: Engine.WritePoints turns every field of every point
+    it is given, except a field named time (skipped: the shard has reported it as stripped),
+    into a value under the key series#!~#field;
     Cache.WriteMulti rejects a key whose new values have mixed types or a type other than the
     one already cached and, if any key was rejected, the batch is not written to the WAL and
     the write returns a non-partial error.
@@ -43,9 +44,11 @@ Fixpoint sput (k : dkey) (ty : N) (t v : Z) (st : vstore) : vstore :=
   | (k', ty', vs) :: r => if dkey_eqb k' k then (k', ty', vset t v vs) :: r else (k', ty', vs) :: sput k ty t v r
   end.
 
-(** entries of a batch handed to the engine, in order *)
+(** entries of a batch handed to the engine, in order (a field named time is skipped) *)
 Definition entries (acc : list wpoint) : list (dkey * N * Z * Z) :=
-  flat_map (fun p => map (fun f => ((w_meas p, w_series p, f_key f), f_type f, w_time p, f_val f)) (w_fields p)) acc.
+  flat_map (fun p => flat_map (fun f => if name_eqb (f_key f) TIME then []
+                                        else [((w_meas p, w_series p, f_key f), f_type f, w_time p, f_val f)])
+                              (w_fields p)) acc.
 
 Definition types_of (st : vstore) (ents : list (dkey * N * Z * Z)) (k : dkey) : list N :=
   (match slookup k st with Some (ty, _) => [ty] | None => [] end) ++
